@@ -11,6 +11,7 @@ import (
 	"fmt"
 	"io"
 	"math/big"
+	"sync"
 
 	"github.com/gotd/td/crypto"
 	"github.com/gotd/td/internal/verif/kit"
@@ -49,16 +50,35 @@ func freshKey(i int) *rsa.PrivateKey {
 func otherKey(i int) int { return 3 - i }
 
 // byteStream serves a fixed pseudo-random byte string sequentially, independent of read sizes.
-func byteStream(name string) io.Reader {
+func byteStream(name string) io.Reader { return bytes.NewReader(streamBytes(name)) }
+
+var streamCache sync.Map // name -> []byte, never written after creation
+
+// streamBytes returns the (shared, read-only) bytes of a named stream.
+func streamBytes(name string) []byte {
+	if v, ok := streamCache.Load(name); ok {
+		return v.([]byte)
+	}
+	var b []byte
 	switch name {
 	case "count":
-		b := make([]byte, 1<<16)
+		b = make([]byte, 1<<16)
 		for i := range b {
 			b[i] = byte(i*13 + i/256 + 5)
 		}
-		return bytes.NewReader(b)
+	case "nz":
+		// no zero byte anywhere, so bytes that were never filled in cannot pass for stream bytes
+		b = kit.Pattern("stream:c14:nz", 1<<16)
+		for i := range b {
+			if b[i] == 0 {
+				b[i] = byte(i%251) + 1
+			}
+		}
+	default:
+		b = kit.Pattern("stream:c14:"+name, 1<<16)
 	}
-	return bytes.NewReader(kit.Pattern("stream:c14:"+name, 1<<16))
+	v, _ := streamCache.LoadOrStore(name, b)
+	return v.([]byte)
 }
 
 type wPad struct {
@@ -86,16 +106,22 @@ type wTamper struct {
 //	data_with_padding = BYTE_REVERSE(data_with_hash[:192]); data_with_hash[192:] = SHA256(temp_key + data_with_padding)
 //	data_with_padding starts with data
 func openRSAPad(enc []byte, key *rsa.PrivateKey, data []byte) (dataWithPadding []byte, why string) {
+	dwp, _, why := openRSAPadKey(enc, key, data)
+	return dwp, why
+}
+
+// openRSAPadKey is openRSAPad that also returns the recovered temp_key.
+func openRSAPadKey(enc []byte, key *rsa.PrivateKey, data []byte) (dataWithPadding, tempKey []byte, why string) {
 	if len(enc) != 256 {
-		return nil, fmt.Sprintf("encrypted_data has %d bytes, not 256", len(enc))
+		return nil, nil, fmt.Sprintf("encrypted_data has %d bytes, not 256", len(enc))
 	}
 	if new(big.Int).SetBytes(enc).Cmp(key.N) >= 0 {
-		return nil, "encrypted_data is not below the modulus"
+		return nil, nil, "encrypted_data is not below the modulus"
 	}
 	kae := refcrypto.RSARaw(enc, key.D, key.N, 256)
 	tempKeyXor, aesEncrypted := kae[:32], kae[32:]
 	h := refcrypto.SHA256(aesEncrypted)
-	tempKey := make([]byte, 32)
+	tempKey = make([]byte, 32)
 	for i := range tempKey {
 		tempKey[i] = tempKeyXor[i] ^ h[i]
 	}
@@ -105,12 +131,12 @@ func openRSAPad(enc []byte, key *rsa.PrivateKey, data []byte) (dataWithPadding [
 		dwp[i] = dwh[191-i]
 	}
 	if !bytes.Equal(dwh[192:], refcrypto.SHA256(tempKey, dwp)) {
-		return nil, "SHA256(temp_key + data_with_padding) does not match the hash inside data_with_hash"
+		return nil, nil, "SHA256(temp_key + data_with_padding) does not match the hash inside data_with_hash"
 	}
 	if !bytes.HasPrefix(dwp, data) {
-		return nil, "data_with_padding does not start with the data"
+		return nil, nil, "data_with_padding does not start with the data"
 	}
-	return dwp, ""
+	return dwp, tempKey, ""
 }
 
 func evalPad(w wPad) kit.Result {
@@ -242,6 +268,7 @@ func main() {
 		fPad := kit.NewFamily(c, "rsa-pad", evalPad)
 		fHashed := kit.NewFamily(c, "rsa-hashed", evalHashed)
 		fTamper := kit.NewFamily(c, "altered", evalTamper)
+		fReader := kit.NewFamily(c, "short-reads", evalReader)
 		if c.Replaying() {
 			return
 		}
@@ -251,6 +278,11 @@ func main() {
 			"rsa-hashed: RSAEncryptHashed -> RSADecryptHashed returns the data for every length 0..235 x 2 keys x streams {a,b} (thorough + {c,count} and data {zero,ff}). " +
 			"altered: valid ciphertexts made by the reference (pad: lengths {0,1,100,144}; hashed: {0,1,100,235}; both keys) must decrypt, and must fail after: a flip of every one of the 2048 bits " +
 			"(quick: every bit for one base per key and scheme, one bit per byte position for the others), decryption with the other key, and replacing the ciphertext integer c by c+N when it still fits into 256 bytes. " +
+			"short-reads: the random source is an io.Reader that serves the same bytes but returns short reads: RSAPad for every data length 0..144 x 2 keys x EVERY single short-read offset of the consumed stream " +
+			"(padding read, first temp_key and the temp_keys of >= modulus retries), also with a (0,nil) read at the offset, all pairs of two short-read offsets around/inside the temp_key reads for lengths {0,1,143,144} " +
+			"(thorough: all pairs of the whole stream for every 8th length, second stream), bufio-like chunkings of 24 sizes 2..256, half reads, one-byte reads, and a source that ends exactly with (n, io.EOF); " +
+			"RSAEncryptHashed likewise for lengths 0,5,..,235,1,234 (thorough every length) x every offset 1..254. Oracle: output byte-equal to the reference construction fed the same byte stream; if not, it must still open as " +
+			"a correct construction AND temp_key / random padding must be contiguous bytes of the random source (a stream without zero bytes makes unfilled buffer bytes visible). " +
 			"distinct = distinct non-trivial witnesses.")
 		c.Assume("reference RSA_PAD / hashed constructions in lib/refcrypto and this file are transcriptions of core.telegram.org/mtproto/auth_key; math/big, crypto/aes, crypto/sha1, crypto/sha256 are trusted; " +
 			"a modified ciphertext passing the SHA-256 / SHA-1 check by chance is treated as impossible")
@@ -337,6 +369,25 @@ func main() {
 				}
 			}
 		}
+		rcs := readerCases(c.Thorough())
+		inFirst, inRetry := 0, 0
+		for _, w := range rcs {
+			w := w
+			jobs = append(jobs, func() { fReader.Eval(w) })
+			if w.Scheme == "pad" {
+				for _, p := range w.Cuts {
+					switch off := p - (192 - w.Len); {
+					case off > 32:
+						inRetry++
+					case off > 0:
+						inFirst++
+					}
+				}
+			}
+		}
+		c.Set("short_read_cases", len(rcs))
+		c.Set("short_read_cuts_inside_first_temp_key", inFirst)
+		c.Set("short_read_cuts_inside_retry_temp_key", inRetry)
 		const chunk = 256
 		done := 0
 		for lo := 0; lo < len(jobs); lo += chunk {
